@@ -159,7 +159,9 @@ fn render(h: Host, prog: &[G]) -> String {
     s
 }
 
-struct Gen<'a> { rng: &'a mut Rng, host: Host, next_label: usize, next_ins: u32, hist: &'a mut BTreeMap<&'static str, u64> }
+struct Gen<'a> { rng: &'a mut Rng, host: Host, next_label: usize, next_ins: u32, hist: &'a mut BTreeMap<&'static str, u64>,
+                 /// labels of chains nested in some block that still want a referrer outside the enclosing top-level construct
+                 pending: Vec<usize>, sibling: Vec<usize> }
 
 impl<'a> Gen<'a> {
     fn note(&mut self, k: &'static str) { *self.hist.entry(k).or_insert(0) += 1; }
@@ -178,6 +180,13 @@ impl<'a> Gen<'a> {
         let n = 1 + self.rng.below(if depth == 0 { 5 } else { 3 });
         for _ in 0..n {
             if out.len() > 45 { return; }
+            let start = out.len();
+            if depth >= 1 && !self.sibling.is_empty() && self.rng.chance(1, 2) {
+                // a jump, from a sibling block, to a label inside an earlier nested chain
+                self.note("near:outside-ref-sibling");
+                let l = self.sibling.pop().unwrap();
+                let j = self.outside_jump(l); out.push(j);
+            }
             match self.rng.below(14) {
                 0..=3 => { let g = self.ins(); out.push(g); },
                 4 => { let g = self.time_label(); out.push(g); },
@@ -205,9 +214,18 @@ impl<'a> Gen<'a> {
                     let has_else = self.rng.chance(1, 2);
                     let end = match shared_end { Some(e) if self.rng.chance(1, 3) => { self.note("shared-end"); e }, _ => self.label() };
                     let own_end = Some(end) != shared_end;
+                    let mut far: Option<usize> = None;      // the last `if` of an else-less chain overshoots the end label
+                    let mut short: Option<usize> = None;    // ... or stops short of it
                     for i in 0..nblocks {
                         let last = i + 1 == nblocks;
-                        let skip = if last && !has_else { end } else { self.label() };
+                        let skip = if last && !has_else {
+                            if own_end && nblocks >= 2 && self.rng.chance(1, 6) {
+                                let l = self.label();
+                                if self.rng.chance(2, 3) { self.note("near:overshoot-last"); far = Some(l); } else { self.note("near:short-last"); short = Some(l); }
+                                l
+                            } else { end }
+                        } else { self.label() };
+                        if depth >= 1 && !(last && !has_else) && self.rng.chance(1, 5) { self.note("near:outside-ref-else"); self.pending.push(skip); }
                         let c = self.cond();
                         out.push(G::Jump { cond: Some(c), label: skip, time: None, diff: None });
                         self.block(depth + 1, brk, Some(end), out);
@@ -228,7 +246,12 @@ impl<'a> Gen<'a> {
                         }
                     }
                     if has_else { self.block(depth + 1, brk, Some(end), out); }
-                    if own_end { out.push(G::Label(end)); }
+                    if let Some(m) = short { out.push(G::Label(m)); let g = self.ins(); out.push(g); }
+                    if own_end {
+                        out.push(G::Label(end));
+                        if depth >= 1 && self.rng.chance(1, 8) { self.note("near:outside-ref-end"); self.pending.push(end); }
+                    }
+                    if let Some(f) = far { let g = self.ins(); out.push(g); out.push(G::Label(f)); }
                 },
                 10 => if let Some(e) = brk {
                     self.note("break");
@@ -239,7 +262,23 @@ impl<'a> Gen<'a> {
                       else { let g = self.ins(); out.push(g); },
                 _ => { let g = self.ins(); out.push(g); },
             }
+            if depth == 0 {
+                // referrers from outside the top-level construct just generated, for labels of chains nested in it
+                let pend: Vec<usize> = self.pending.drain(..).collect();
+                for l in pend {
+                    match self.rng.below(3) {
+                        0 => { self.note("near:outside-ref-before"); let j = self.outside_jump(l); out.insert(start, j); },
+                        1 => { self.note("near:outside-ref-after"); let j = self.outside_jump(l); out.push(j); },
+                        _ => self.sibling.push(l),
+                    }
+                }
+            }
         }
+    }
+
+    fn outside_jump(&mut self, l: usize) -> G {
+        let cond = if self.rng.chance(3, 4) { Some(self.cond()) } else { None };
+        G::Jump { cond, label: l, time: None, diff: None }
     }
 
     fn random_flat(&mut self, out: &mut Vec<G>) {
@@ -330,6 +369,8 @@ impl<'a> Gen<'a> {
             7 | 8 => { self.random_flat(&mut prog); "random" },
             _ => { self.block(0, None, None, &mut prog); self.random_flat(&mut prog); self.perturb(&mut prog); "mixed" },
         };
+        let rest: Vec<usize> = self.sibling.drain(..).chain(self.pending.drain(..)).collect();
+        for l in rest { self.note("near:outside-ref-after"); let j = self.outside_jump(l); prog.push(j); }
         self.fix_labels(&mut prog);
         if prog.len() > 60 { prog.truncate(60); self.fix_labels(&mut prog); }
         (prog, kind)
@@ -882,7 +923,7 @@ fn main() {
             for i in 0..n {
                 let h = if rng.chance(1, 3) { Host::Ecl } else { Host::Anm };
                 let mut sub = rng.fork();
-                let (prog, kind) = { let mut g = Gen { rng: &mut sub, host: h, next_label: 0, next_ins: 0, hist: &mut hist }; g.program() };
+                let (prog, kind) = { let mut g = Gen { rng: &mut sub, host: h, next_label: 0, next_ins: 0, hist: &mut hist, pending: vec![], sibling: vec![] }; g.program() };
                 *kinds.entry(format!("{:?}:{}", h, kind)).or_insert(0) += 1;
                 let body = render(h, &prog);
                 let o = run_case(h, &body, &format!("g{}_{}", std::process::id(), i % 4), &mut sub);
